@@ -172,8 +172,8 @@ class CanvasCache:
     def cleanup(cls, ref: weakref.ReferenceType) -> None:
         cls.cleanups += 1  # collect stats
 
-        w = cls._refs.get(ref, None)
-        del cls._refs[ref]
+        # invalidate() may already have removed the entry of a canvas that is collected later
+        w = cls._refs.pop(ref, None)
         if not w:
             return
         widget, wcls, size, focus = w
